@@ -116,6 +116,10 @@ fn emit(e: &Expr, ctx: Ctx, out: &mut Vec<Tok>) {
                 if i > 0 {
                     out.push(t("|"));
                 }
+                // an empty sequence as one of several alternatives is written as nothing at all: `a | | b`
+                if v.len() >= 2 && matches!(a, Expr::Seq(x) if x.is_empty()) {
+                    continue;
+                }
                 emit(a, Ctx::Arm, out);
             }
             if need {
